@@ -9,6 +9,7 @@ use std::alloc::Allocator;
 use std::ops::Range;
 verus! {
 //@include ../shim/order.rs
+//@include ../shim/orderstat.rs
 //@include ../shim/lane.rs
 //@include ../shim/slices.rs
 //@include ../shim/indexmap.rs
@@ -373,6 +374,36 @@ verif_remove_nan_mut::<A>(lane)
             }
         }
 //@end
+}
+
+// ---- C20 / C01: the value of a quantile is determined by the multiset of the lane ---------------------------------------
+// Every entry point above returns, per lane, a value `out` with `lane_entry(final lane, q, n, out)` where the final lane is a
+// permutation of the original one.  Which permutation the randomized selection leaves behind depends on the pivots (and, in the
+// real crate, on nothing else: the shim has no layout); this lemma shows that it does not matter: two arrangements of the same
+// lane that both satisfy `lane_entry` give the same value, provided equivalent elements are identical (integers; for N64 the
+// two zeros are equivalent but distinct, and the values agree up to that).
+pub open spec fn antisym<A: Ord>() -> bool { forall|a: A, b: A| #[trigger] eqv(a, b) ==> a == b }
+proof fn lemma_quantile_determined<A: Ord, I: Interpolate<A>>(lane: Seq<A>, f1: Seq<A>, f2: Seq<A>, q: N64, n: usize, v1: A, v2: A)
+    requires
+        lawful_ord::<A>(), antisym::<A>(), perm(f1, lane), perm(f2, lane),
+        lane_entry::<A, I>(f1, q, n, v1), lane_entry::<A, I>(f2, q, n, v2),
+    ensures v1 == v2, // [C20,C01,C19]
+{
+    let (lo1, hi1) = choose|lo: Option<A>, hi: Option<A>| #![auto]
+        (if I::needs_lower_spec(q, n) { lo is Some && selected_at(f1, lower_index_spec(q, n) as int, lo->Some_0) } else { lo is None })
+        && (if I::needs_higher_spec(q, n) { hi is Some && selected_at(f1, higher_index_spec(q, n) as int, hi->Some_0) } else { hi is None })
+        && v1 == I::interpolate_spec(lo, hi, q, n);
+    let (lo2, hi2) = choose|lo: Option<A>, hi: Option<A>| #![auto]
+        (if I::needs_lower_spec(q, n) { lo is Some && selected_at(f2, lower_index_spec(q, n) as int, lo->Some_0) } else { lo is None })
+        && (if I::needs_higher_spec(q, n) { hi is Some && selected_at(f2, higher_index_spec(q, n) as int, hi->Some_0) } else { hi is None })
+        && v2 == I::interpolate_spec(lo, hi, q, n);
+    if I::needs_lower_spec(q, n) {
+        lemma_order_statistic_unique(f1, f2, lower_index_spec(q, n) as int, lo1->Some_0, lo2->Some_0);
+    }
+    if I::needs_higher_spec(q, n) {
+        lemma_order_statistic_unique(f1, f2, higher_index_spec(q, n) as int, hi1->Some_0, hi2->Some_0);
+    }
+    assert(lo1 == lo2 && hi1 == hi2);
 }
 
 } // verus!
